@@ -619,6 +619,42 @@ var c01Clocks = []time.Time{
 	time.Unix(0, -1), time.Unix(-1, 0), // before the epoch: the millisecond count wraps in uint64
 }
 
+var c01Boundary = []time.Time{time.Date(2049, 6, 1, 0, 0, 0, 0, time.UTC), time.Date(2049, 12, 31, 23, 59, 59, 0, time.UTC),
+	time.Date(2050, 1, 1, 0, 0, 0, 0, time.UTC), time.Date(2050, 6, 1, 0, 0, 0, 0, time.UTC), time.Date(2050, 12, 31, 23, 59, 59, 0, time.UTC),
+	time.Date(2051, 1, 1, 0, 0, 0, 0, time.UTC), time.Date(2030, 1, 1, 0, 0, 0, 0, time.UTC)}
+
+// submitRaw posts DER strings that are not (all) certificates: the answer must be 4xx and nothing may reach the backend.
+func (l *c01Log) submitRaw(ders [][]byte, pre bool, what string) {
+	var b64 []string
+	for _, d := range ders {
+		b64 = append(b64, base64.StdEncoding.EncodeToString(d))
+	}
+	body, _ := json.Marshal(map[string][]string{"chain": b64})
+	ep := "add-chain"
+	if pre {
+		ep = "add-pre-chain"
+	}
+	l.be.last = nil
+	var code int
+	p := verifkit.Guard(func() { code = vServe(l.li, ep, "POST", nil, string(body)).Code })
+	key := fmt.Sprintf("%s %s %s", l.name, ep, what)
+	l.out.Count("mode:not-a-certificate")
+	switch {
+	case p != "":
+		l.out.Fail(key, "panic: "+p)
+	case code == 200:
+		q := l.be.last
+		d := "accepted"
+		if q != nil {
+			h := sha256.Sum256(ders[0])
+			d = fmt.Sprintf("accepted; LeafIdentityHash is SHA-256 of the submitted leaf bytes: %v", bytes.Equal(q.LeafIdentityHash, h[:]))
+		}
+		l.out.Fail(key, "a submission with bytes after a certificate's DER was answered 200 — the entry is not over the submitted bytes ("+d+")")
+	case code < 400 || code > 499 || l.be.last != nil:
+		l.out.Fail(key, fmt.Sprintf("answered %d, backend called=%v (want 4xx, no backend call)", code, l.be.last != nil))
+	}
+}
+
 func TestVerifC01(t *testing.T) {
 	out := verifkit.Open()
 	defer out.Close()
@@ -671,6 +707,16 @@ func TestVerifC01(t *testing.T) {
 				}
 				if r.Intn(6) == 0 {
 					sp.akiMode = vAKINone
+				}
+				if r.Intn(3) == 0 {
+					// validity dates on both sides of the UTCTime / GeneralizedTime boundary (RFC 5280: through 2049 / from 2050),
+					// NotBefore and NotAfter independently: the precert TBS is re-marshalled when the poison is stripped
+					sp.notBefore = c01Boundary[r.Intn(len(c01Boundary))]
+					sp.notAfter = c01Boundary[r.Intn(len(c01Boundary))]
+					if sp.notAfter.Before(sp.notBefore) {
+						sp.notBefore, sp.notAfter = sp.notAfter, sp.notBefore
+					}
+					out.Count("mode:validity-around-2050")
 				}
 				leaf := vIssue(sp)
 				if r.Intn(2) == 0 {
@@ -759,6 +805,36 @@ func TestVerifC01(t *testing.T) {
 			lg.li.validationOpts.trustedRoots.AddCert(ti.c)
 			lg.submit([]*vCert{ti}, []*vCert{ti}, false, c01Clocks[4], "a trusted intermediate submitted as the leaf")
 			out.Count("mode:path-of-length-1")
+		}
+		// DER only the lax fallback of ParseCertificate accepts (non-minimal serial), as leaf and as intermediate: accepted, and
+		// everything is over exactly the submitted bytes; with bytes appended to such a certificate the submission is refused
+		{
+			ca := w.inters[0]
+			for i, pre := range []bool{false, true} {
+				sp := vSpec{cn: fmt.Sprintf("c01w%d lax leaf %d", wi, i), key: keys[9], issuer: ca, keyUsage: stdx509.KeyUsageDigitalSignature}
+				if pre {
+					sp.poison = vPoisonOK
+				}
+				leaf := vLaxSerial(vIssue(sp), byte(wi*2+i))
+				path := vPath(leaf)
+				if !pre { // a lax-only precertificate is refused by BuildPrecertTBS' strict re-parse (400): no 200 to check
+					lg.submit(path[:len(path)-1], path, pre, c01Clocks[3], "leaf in lax-only DER")
+				}
+				var ders [][]byte
+				for _, c := range path[:len(path)-1] {
+					ders = append(ders, c.der)
+				}
+				ders[0] = append(append([]byte{}, leaf.der...), 0xde, 0xad, 0xbe, 0xef)
+				lg.submitRaw(ders, pre, "leaf in lax-only DER followed by DE AD BE EF")
+			}
+			laxCA := vLaxSerial(vIssue(vSpec{cn: fmt.Sprintf("c01w%d lax intermediate", wi), key: keys[8], issuer: w.roots[0], isCA: true, keyUsage: vCAUsage}), 0x55)
+			leaf := vIssue(vSpec{cn: fmt.Sprintf("c01w%d leaf under lax intermediate", wi), key: keys[9], issuer: laxCA, keyUsage: stdx509.KeyUsageDigitalSignature})
+			path := vPath(leaf)
+			lg.submit(path[:len(path)-1], path, false, c01Clocks[4], "intermediate in lax-only DER")
+			lg.submitRaw([][]byte{leaf.der, append(append([]byte{}, laxCA.der...), 0xde, 0xad, 0xbe, 0xef)}, false, "intermediate in lax-only DER followed by DE AD BE EF")
+			strict := vIssue(vSpec{cn: fmt.Sprintf("c01w%d strict leaf", wi), key: keys[9], issuer: ca, keyUsage: stdx509.KeyUsageDigitalSignature})
+			lg.submitRaw([][]byte{append(append([]byte{}, strict.der...), 0x00), ca.der}, false, "well-formed leaf followed by 00")
+			out.Count("mode:lax-only-der")
 		}
 		// a Precertificate Signing Certificate that is itself a trust anchor: no final issuer in the path, no entry
 		{
